@@ -228,7 +228,11 @@ fn parse_case(src: &str, sink: &mut Sink, tag: &str) -> bool {
     }
 }
 
-const JUNK: [(&str, &str); 13] = [
+const JUNK: [(&str, &str); 17] = [
+    ("line-comment-with-opener", " -- old /- style\n"),
+    ("text-line-with-opener", "\n--| doc /- text\n"),
+    ("line-comment-with-closer", " -- stray -/ here\n"),
+    ("line-comment-with-both", " -- a /- b -/ c /- d\n"),
     ("carriage-return", " \r\n "),
     ("no-break-space", "\u{a0}"),
     ("vertical-tab", "\u{b}"),
@@ -244,7 +248,8 @@ const JUNK: [(&str, &str); 13] = [
     ("close-open", " -/ /- "),
 ];
 
-const LEXEMES: [&str; 29] = [
+const LEXEMES: [&str; 33] = [
+    "-- a /- b\n", "--| t /- u\n", "-- x -/ y\n", "-- /- /- -/\n",
     "\r", "\u{a0}", "\u{b}", "\u{2028}", "\u{c}",
     "/-", "-/", "-- c\n", "--| t\n", "a", "B", "+K", ".d", "(", ")", "\"-/\"", "\"/-\"", "§", "\n",
     " ", "1", "-1", "let", "in", "=", "ret", "'x'", "{", "}",
